@@ -354,7 +354,14 @@ class Machine:
         def same(t1, t2):
             import re as _re
             strip = lambda t: _re.sub(r"'[a-z_]+,? ?", "", (t or "").replace("ruschm::", "")).replace(" ", "").replace("&mut", "").replace("&", "")
-            return strip(t1) == strip(t2)
+            a_, b_ = strip(t1), strip(t2)
+            if a_ == b_:
+                return True
+            # an impl for every instantiation (`impl<T> .. for Located<T>`): its arguments are bare type parameters
+            if "<" in a_ and "<" in b_ and a_.split("<", 1)[0] == b_.split("<", 1)[0]:
+                params_ = a_.split("<", 1)[1].rstrip(">")
+                return bool(params_) and all(_re.fullmatch(r"[A-Z][A-Za-z0-9]*", x_) for x_ in params_.split(","))
+            return False
         cands = [f for f in self.fb.all(self.crate) if f.name.endswith("::" + meth) and f.trait and mir.norm(f.trait).split("<")[0] == trait and
                  f.self_ty and same(f.self_ty, selfty)]
         if len(cands) > 1 and len(gens) > 1:
@@ -403,7 +410,7 @@ class Machine:
             # a tuple-variant / tuple-struct constructor used as a function: `.map(Self::AST)`, `.map(Some)`
             if "::" in fnv.name:
                 adt_path, vname = fnv.name.rsplit("::", 1)
-                if vname in ("Some", "Ok", "Err") and adt_path.endswith(("Option", "Result")):
+                if vname in ("Some", "Ok", "Err") and (adt_path.endswith(("Option", "Result")) or "prelude::" in adt_path):
                     return {"Some": some, "Ok": ok, "Err": err}[vname](args[0] if args else UNKNOWN)
                 try:
                     vs = self.fb.variants(mir.norm(adt_path))
@@ -512,7 +519,9 @@ class Machine:
                     else:
                         tgt.set(cur + piece)
                     return []
-                if isinstance(piece, (str, Text)) and "insert" not in c.rsplit("::", 1)[-1]:
+                if piece is not UNKNOWN and piece is not None and not isinstance(piece, (str, Text, Hole, list, bool, int, float, Enum, Map, Iter)):
+                    piece = Hole(piece)          # an opaque token standing for a text (the rendering of an opaque value)
+                if isinstance(piece, (str, Text, Hole)) and "insert" not in c.rsplit("::", 1)[-1]:
                     # text with opaque parts (the rendering of an opaque value): appended as it is
                     tgt.set(Text([cur, piece]).flat())
                     return []
@@ -520,11 +529,13 @@ class Machine:
                 # (a text with opaque parts is an object of its own: every alias sees the appended piece)
                 piece = a[-1]
                 piece = chr(piece) if isinstance(piece, int) and not isinstance(piece, bool) else piece
-                if isinstance(piece, (str, Text)):
+                if piece is not UNKNOWN and piece is not None and not isinstance(piece, (str, Text, Hole, list, bool, int, float, Enum, Map, Iter)):
+                    piece = Hole(piece)
+                if isinstance(piece, (str, Text, Hole)):
                     cur.parts[:] = Text([Text(list(cur.parts)), piece]).parts
                     return []
             if isinstance(tgt, absint.Ptr) or isinstance(cur, Text):
-                raise Stuck("%s with a piece / a string that is not known text" % c.rsplit("::", 1)[-1])
+                raise Stuck("%s with a piece / a string that is not known text (%s onto %s)" % (c.rsplit("::", 1)[-1], type(a[-1]).__name__, type(cur).__name__))
             return UNKNOWN
         if c and raw and (tt.get("fn") or {}).get("resolved") is None and ((self.gmap_stack and self.gmap_stack[-1]) or
                                                                              c.rsplit("::", 1)[0].endswith(("cmp::PartialEq", "cmp::PartialOrd"))):
@@ -604,6 +615,9 @@ class Machine:
                     cands = [f for f in cands if inner in f.self_ty.replace("ruschm::", "") or inner in f.name]
                 if len(cands) == 1:
                     h = cands[0]
+        if h is not None and "{closure#" in h.name.rsplit("::", 1)[-1] and len(raw) == 2 and type(a[1]) is list and len(a[1]) == h.arg_count - 1:
+            # a closure of the crate called by name: the caller hands (closure, tuple of the arguments), the body takes them one by one
+            raw = [raw[0]] + list(a[1])
         if h is not None and self.inline(c):
             return self.run_tagged(h, raw, self.subst_generics((tt.get("fn") or {}).get("generics")))
         if h is None and c and any(isinstance(x, Closure) for x in a):
@@ -1187,6 +1201,11 @@ class Machine:
                     yield x.fields[0] if x.fields else UNKNOWN
             r = self.call_value(a[1], [LazyIter(g_ok())])
             return err(failed[0]) if failed else ok(r)
+        if not a and c.startswith("<") and c.endswith(" as std::default::Default>::default"):
+            # Default::default() of a std container / primitive, named by the impl's own type
+            dv_ = _default_of_type(c[1:c.index(" as ")])
+            if dv_ is not UNKNOWN:
+                return dv_
         if m("std::hint::must_use", "std::convert::identity", "std::hint::black_box"):
             return a0
         if m("std::mem::drop", "std::ops::Drop>::drop"):
@@ -1665,6 +1684,25 @@ class Machine:
             if isinstance(a0, Map):
                 return a0.d.pop(key_of(a[1]), None) is not None
             return NOT
+        if m("HashSet::take", "HashSet::get", "HashSet::replace", "HashMap::remove_entry", "HashMap::get_key_value"):
+            if isinstance(a0, Map):
+                meth_ = c.rsplit("::", 1)[-1]
+                if meth_ == "take":
+                    e = a0.d.pop(key_of(a[1]), None)
+                    return some(e[0]) if e else none()
+                if meth_ == "get":
+                    e = a0.d.get(key_of(a[1]))
+                    return some(e[0]) if e else none()
+                if meth_ == "replace":
+                    e = a0.d.get(key_of(a[1]))
+                    a0.d[key_of(a[1])] = (a[1], True)
+                    return some(e[0]) if e else none()
+                if meth_ == "remove_entry":
+                    e = a0.d.pop(key_of(a[1]), None)
+                    return some([e[0], e[1]]) if e else none()
+                e = a0.d.get(key_of(a[1]))
+                return some([e[0], e[1]]) if e else none()
+            return NOT
         if m("HashMap::retain", "HashSet::retain") and len(a) == 2:
             if isinstance(a0, Map):
                 # keeps the entries the predicate accepts (each asked once, in no particular order)
@@ -2079,6 +2117,23 @@ class Machine:
                 return self._container(ty, items if isinstance(items, list) else list(items))
             lazy = dty.startswith("std::result::Result<") or dty.startswith("std::option::Option<")
             return collect_into(dty, drain(a0) if lazy else a0.rest())
+        if end in ("sum", "product") and len(a) == 1:
+            # of integers, or of Results / Options of integers (stops at the first Err / None and hands it over)
+            dty = (g.local_ty(tt["dest"]["local"]) or "") if (g is not None and tt is not None) else ""
+            wrap = "Result" if dty.startswith("std::result::Result<") else ("Option" if dty.startswith("std::option::Option<") else None)
+            acc = 0 if end == "sum" else 1
+            for x in drain(a0):
+                if wrap:
+                    if not isinstance(x, Enum):
+                        raise Stuck("%s over an element that is not known" % end)
+                    good = (x.variant == 0) if wrap == "Result" else (x.variant == 1)
+                    if not good:
+                        return x
+                    x = x.fields[0] if x.fields else UNKNOWN
+                if not isinstance(x, (int, float)) or isinstance(x, bool):
+                    raise Stuck("%s over an element that is not a known number" % end)
+                acc = acc + x if end == "sum" else acc * x
+            return (ok(acc) if wrap == "Result" else some(acc)) if wrap else acc
         if end == "count":
             return len(a0.rest())
         if end == "last":
@@ -2091,6 +2146,12 @@ class Machine:
         if end == "fold":
             acc = a[1]
             for x in drain(a0):
+                acc = self.call_value(a[2], [acc, x])
+            return acc
+        if end == "rfold":
+            acc = a[1]
+            rest_ = [x for x in drain(a0)]             # (the iterator is consumed; the steps run from its back)
+            for x in reversed(rest_):
                 acc = self.call_value(a[2], [acc, x])
             return acc
         if end == "try_fold":
@@ -2270,10 +2331,12 @@ def _default_of_type(ty):
         return False
     if ty in ("std::string::String", "&str", "String"):
         return ""
-    if ty.startswith("std::vec::Vec<") or ty.startswith("smallvec::SmallVec<"):
+    if ty.startswith(("std::vec::Vec<", "smallvec::SmallVec<", "std::collections::VecDeque<")) or ty in ("std::vec::Vec", "smallvec::SmallVec", "std::collections::VecDeque"):
         return []
-    if ty.startswith("std::option::Option<"):
+    if ty.startswith("std::option::Option<") or ty == "std::option::Option":
         return none()
+    if ty.startswith(("std::collections::HashMap", "std::collections::HashSet", "std::collections::BTreeMap", "std::collections::BTreeSet")):
+        return Map()
     return UNKNOWN
 ITER_METHODS = {"tuple_windows", "tuples", "map", "filter", "filter_map", "map_while", "take_while", "flatten", "flat_map", "all_equal", "enumerate", "rev", "skip", "take", "zip", "chain", "collect", "count", "last",
-                "for_each", "fold", "try_fold", "try_for_each", "any", "all", "find", "position", "find_map", "next", "next_back", "nth", "nth_back"}
+                "for_each", "fold", "rfold", "sum", "product", "try_fold", "try_for_each", "any", "all", "find", "position", "find_map", "next", "next_back", "nth", "nth_back"}
